@@ -161,6 +161,20 @@ class Proj:
 
     def finish(self):
         self.spec["imports"].sort(key=lambda i: i["file"])      # list order = source order (stable)
+        # the letter case of everything the tag line carries, and the blanks around it, per spec independently:
+        # mage lower-cases the whole comment, (path, lower-cased alias) is the identity of an import
+        rng = self.rng
+        for i in self.spec["imports"]:
+            if rng.random() < 0.4:
+                i["tagline"] = "// mage:import" + ((" " + i["tag"]) if i["alias"] else "")
+                continue
+            ws = lambda: rng.choice([" ", " ", "", "\t", "  ", " \t "])
+            sep = lambda: rng.choice([" ", " ", "\t", "   ", "\t \t"])
+            word = rng.choice(["mage:import", "MAGE:IMPORT", "Mage:Import", "mage:Import", rcase(rng, "mage:import", False)])
+            al = ""
+            if i["alias"]:
+                al = sep() + rng.choice([i["alias"], i["alias"].upper(), i["alias"].capitalize(), rcase(rng, i["alias"], False), i["tag"]])
+            i["tagline"] = "//" + ws() + word + al + rng.choice(["", "", " ", "\t", "  "])
 
     def itgt(self, i, recv, name):
         return self._add(i["tgts"], recv, name)
@@ -571,6 +585,24 @@ def k_named_import_same_names(P, c):
     P.local(a.capitalize(), rcase(rng, ws[0]) if c else near(rng, ws[0]))
 
 
+def k_alias_case(P, c):
+    """import aliases differing only in letter case are ONE alias: two different packages under Tools / tools sharing a
+    function name collide; without a shared name both are reachable under tools:..; one package under Tools and tools
+    (and TOOLS) is one import"""
+    rng = P.rng
+    a, _ = P.ialias()
+    i = P.imp(a, a.capitalize(), file=rng.choice([0, 1]))
+    w = P.word()
+    P.itgt(i, "", rcase(rng, w))
+    P.itgt(i, "", rcase(rng, P.word()))
+    P.imp(a, a.upper(), again=i, file=rng.choice([0, 1]))          # the same package once more, other spelling
+    if rng.random() < 0.5:
+        P.imp(a, rcase(rng, a, False), again=i, file=rng.choice([0, 1]))
+    j = P.imp(a, rng.choice([a, a.upper(), rcase(rng, a, False)]), file=rng.choice([0, 1]))   # a different package
+    P.itgt(j, "", rcase(rng, w) if c else rcase(rng, P.word()))
+    P.local("", rcase(rng, P.word()))
+
+
 KINDS = [("fn_case", k_fn_case), ("method_case", k_method_case), ("namespace_case", k_namespace_case),
          ("fn_vs_method", k_fn_vs_method), ("two_imports_one_alias", k_two_imports_one_alias),
          ("same_name_two_aliases", k_same_name_two_aliases), ("root_vs_local", k_root_vs_local), ("two_roots", k_two_roots),
@@ -581,7 +613,8 @@ KINDS = [("fn_case", k_fn_case), ("method_case", k_method_case), ("namespace_cas
          ("pkg_three_aliases", k_pkg_three_aliases), ("pkg_same_pair_twice", k_pkg_same_pair_twice),
          ("pkg_root_twice", k_pkg_root_twice),
          ("decoys", k_decoys), ("decoy_across", k_decoy_across),
-         ("imported_aliases", k_imported_aliases), ("named_import_same_names", k_named_import_same_names)]
+         ("imported_aliases", k_imported_aliases), ("named_import_same_names", k_named_import_same_names),
+         ("alias_case", k_alias_case)]
 
 # ways of invoking mage that must not influence what is accepted or which body runs: (flags, environment)
 MODES = {"plain": ([], {}), "-debug": (["-debug"], {}), "-v": (["-v"], {}), "MAGEFILE_DEBUG=1": ([], {"MAGEFILE_DEBUG": "1"}),
@@ -963,7 +996,7 @@ def render(spec):
                     imps.append('\t"%s/imp/%s"\n' % (mod, pkg))
         named_here = set()
         for i in specs:
-            imps.append("\t// mage:import%s\n" % ((" " + i["tag"]) if i["alias"] else ""))
+            imps.append("\t%s\n" % i.get("tagline", "// mage:import%s" % ((" " + i["tag"]) if i["alias"] else "")))
             blank = not (fno == 0 and i["pkg"] in used and i["pkg"] not in named_here)
             if not blank:
                 named_here.add(i["pkg"])
